@@ -74,6 +74,25 @@ Theorem C19_lookup_after_eviction : forall s t n, aget n (tget t (s_cache s)) = 
 Proof. exact lookup_after_eviction. Qed.
 Print Assumptions C19_lookup_after_eviction.
 
+(** OVER HISTORIES, for all access patterns relative to the sweep: in any reachable state a lookup of (t, n) hits; then
+    ANYTHING happens - lookups, responses, subscriptions, stream failures, resolutions, clock ticks - except another sweep
+    or the test device back-dating this very entry, for at most the expiry period of clock time; then a sweep runs: the
+    entry is still cached and still subscribed. *)
+Theorem C19_used_within_period_survives : forall c o pre t n mid v,
+  aget n (tget t (s_cache (final c o pre))) = Some v ->
+  forallb (quiet_for t n) mid = true -> (ticks mid <= expire_ms)%N ->
+  let s := final c o (pre ++ OLookup t n :: mid) in
+  aget n (tget t (s_cache (fst (sweep s)))) = aget n (tget t (s_cache s)) /\
+  smem n (watched_names (fst (sweep s)) t) = smem n (watched_names s t).
+Proof. exact used_within_period_survives'. Qed.
+Print Assumptions C19_used_within_period_survives.
+
+(** every cached entry has an access record, in every reachable state: nothing can stay cached forever unnoticed *)
+Theorem C19_every_entry_can_expire : forall c o h t n,
+  amem n (tget t (s_cache (final c o h))) = true -> amem n (tget t (s_meta (final c o h))) = true.
+Proof. exact reachable_cover. Qed.
+Print Assumptions C19_every_entry_can_expire.
+
 Theorem C19_example :
   let c := {| sc_nds_required := false; sc_f := {| f_ns := "default"; f_dom := "cluster.local" |} |} in
   let o := mk_oracle [] [] [] in
